@@ -128,6 +128,9 @@ Inductive ims_spec :=
 Inductive op :=
 | Rewrite (dt sz : N)            (* new content of size sz (same or other size) *)
 | Touch (dt : N)
+| Restore (dt sz : N)            (* new content of size sz put in place with the OLD mtime (rsync -t, tar x,
+                                    cp -p, SOURCE_DATE_EPOCH): only ctime moves to now *)
+| SetMtime (dt back : N)         (* os.utime: mtime := now - back (clipped at 0), ctime := now, content kept *)
 | Wait (dt : N)
 | Req (j : nat) (i : inm_spec) (m : ims_spec).
 
@@ -221,7 +224,9 @@ Definition render_ims (log : list entry) (j : nat) (s : ims_spec) : option Z :=
   | MRaw p => p
   end.
 
-Definition step (a : appkind) (i : iface) (st : world * list entry) (o : op) : world * list entry :=
+(* [sv]: how a request is served; the applications use [serve a i] *)
+Definition step_with (sv : fstate -> str -> option Z -> resp)
+           (st : world * list entry) (o : op) : world * list entry :=
   let (w, log) := st in
   match o with
   | Rewrite dt sz =>
@@ -230,17 +235,38 @@ Definition step (a : appkind) (i : iface) (st : world * list entry) (o : op) : w
   | Touch dt =>
       let t := w_now w + dt in
       (mkW t (S (w_gen w)) (mkF (f_ver (w_file w)) (f_size (w_file w)) t t), log)
+  | Restore dt sz =>
+      let t := w_now w + dt in
+      (mkW t (S (w_gen w)) (mkF (f_ver (w_file w) + 1) sz (f_mtime (w_file w)) t), log)
+  | SetMtime dt back =>
+      let t := w_now w + dt in
+      (mkW t (S (w_gen w)) (mkF (f_ver (w_file w)) (f_size (w_file w)) (t - back) t), log)
   | Wait dt => (mkW (w_now w + dt) (w_gen w) (w_file w), log)
   | Req j si sm =>
-      let r := serve a i (w_file w) (render_inm log j si) (render_ims log j sm) in
+      let r := sv (w_file w) (render_inm log j si) (render_ims log j sm) in
       (w, log ++ [mkE (w_gen w) (w_file w) j si sm r])
   end.
+
+Definition run_with (sv : fstate -> str -> option Z -> resp) (w : world) (ops : list op) : list entry :=
+  snd (fold_left (step_with sv) ops (w, [])).
+
+Definition step (a : appkind) (i : iface) := step_with (serve a i).
 
 Definition run_from (a : appkind) (i : iface) (st : world * list entry) (ops : list op) : world * list entry :=
   fold_left (step a i) ops st.
 
 Definition run (a : appkind) (i : iface) (w : world) (ops : list op) : list entry :=
   snd (run_from a i (w, []) ops).
+
+(* NOT the code: file_response comparing the date with the modification time
+   (the time Last-Modified is made from) instead of the change time — refuted in Proofs.v *)
+Definition file_response_mtime (f : fstate) (inm : str) (ims : option Z) : resp :=
+  if match inm with
+     | [] => if_modified_since (Z.of_N (isec (f_mtime f))) ims
+     | _ => if_none_match (etag_of f) inm
+     end
+  then not_modified
+  else full_response f.
 
 End Env.
 
@@ -262,9 +288,11 @@ Definition wf_tmpl (before : list str) (ws1 ws2 : str) (after : list str) : Prop
 Definition decoys_miss (e : str) (ds : list str) : Prop :=
   forall d, In d ds -> member_norm d <> e.
 
-Definition wf_file (f : fstate) : Prop := f_mtime f = f_ctime f.
+(* the modification time is not later than the change time, which is not later than the clock
+   (every operation keeps this; a file stamped with a future mtime is outside) *)
+Definition wf_file (f : fstate) : Prop := f_mtime f <= f_ctime f.
 Definition wf_world (w : world) : Prop :=
-  wf_file (w_file w) /\ f_mtime (w_file w) <= w_now w.
+  wf_file (w_file w) /\ f_ctime (w_file w) <= w_now w.
 
 (* the premises about what is not baize's *)
 Definition sha_injective (sha : N -> N -> str) : Prop :=
